@@ -1,6 +1,7 @@
 #ifndef BINLOG_DETAIL_VECTOR_OUTPUT_STREAM_HPP
 #define BINLOG_DETAIL_VECTOR_OUTPUT_STREAM_HPP
 
+#include <algorithm> // max
 #include <cstdint>
 #include <cstring>
 #include <ios> // streamsize
@@ -77,16 +78,25 @@ public:
 
   RecoverableVectorOutputStream& write(const char* buffer, std::streamsize size)
   {
-    std::uint64_t magic = 0;
     if (_vector.capacity() < _vector.size() + std::size_t(size))
     {
-      // vector will reallocate, clear the magic of the old buffer
-      // to avoid recovering invalid data
-      magic = clearMagic();
+      // The vector has to grow. Make sure there is a recoverable copy
+      // of the data in memory at every instant: copy the data to the new
+      // buffer with the magic cleared, set the magic when the copy is complete,
+      // and clear the magic of the old buffer only after that.
+      std::vector<char> grown;
+      grown.reserve((std::max)(2 * _vector.capacity(), _vector.size() + std::size_t(size)));
+      grown.resize(sizeof(std::uint64_t));
+      grown.insert(grown.end(), _vector.begin() + sizeof(std::uint64_t), _vector.end());
+
+      std::uint64_t magic = 0;
+      memcpy(&magic, _vector.data(), sizeof(magic));
+      memcpy(grown.data(), &magic, sizeof(magic)); // the new buffer is complete
+      setMagic(0);                                 // the old buffer is obsolete
+      _vector.swap(grown);
     }
 
     _vector.insert(_vector.end(), buffer, buffer + size);
-    if (magic != 0) { setMagic(magic); }
     updateSize();
     return *this;
   }
